@@ -258,6 +258,7 @@ int main(int argc, char **argv) {
         if (mode == "large") { const Large &L = larges[(u + seed) % total_units]; return std::make_pair(std::string("exact variants"), "family=" + L.fam + ";weights=" + L.pat + ";renumber=" + ren_name(L.ren) + ";edge-order=" + std::to_string(L.ord)); }
         vg::EdgeList el = vg::graph_from_mask(n, (u + seed) % total_units); std::vector<double> w; vg::weighting(alpha, el.m(), sub, w); return std::make_pair(std::string("exact variants"), vg::case_string(el, w)); };
     double t0 = vr::now_s();
+    A.has("out"); A.require_all_used();
     auto res = R.run(total_units, work, describe);
     double wall = vr::now_s() - t0;
     FILE *o = A.has("out") ? fopen(A.get("out").c_str(), "w") : stdout;
